@@ -923,7 +923,10 @@ def check_setup(ctx, repo):
     outs = ["/d/out.rtdc", "/d/out", "/d/link.rtdc", "/d/link2.rtdc",
             "/d/sub/../in.rtdc", "/d/in.rtdc", "/d/in", "/d/in2",
             "/d/tlink.rtdc", "/d/e/out.rtdc", "/d/olink.rtdc",
-            "/d/out.v2.rtdc", "/d/OUT.RTDC"]
+            "/d/out.v2.rtdc", "/d/OUT.RTDC",
+            # an output named like a temporary file: the working path must
+            # still differ from the path the result appears under
+            "/d/out.rtdc~"]
     stale = [(), ("out",), ("temp",), ("out", "temp")]
     n = 0
 
@@ -991,6 +994,15 @@ def check_setup(ctx, repo):
         lin = rin if isinstance(rin, list) else [rin]
         lout = rout if isinstance(rout, list) else [rout]
         ltemp = rtemp if isinstance(rtemp, list) else [rtemp]
+        same = [o for o, t in zip(lout, ltemp) if isinstance(o, MPath)
+                and isinstance(t, MPath) and fs.canon(o.s) == fs.canon(t.s)]
+        if same:
+            fail("temp derivation", f"{what}: the temporary path equals the "
+                 f"output path {same[0].s}: the task writes its data "
+                 "directly under the name the result appears under (a "
+                 "fault leaves a partial file there, the final rename is a "
+                 "rename onto itself)")
+            return
         if not shape_ok or not all(isinstance(x, MPath)
                                    for x in lin + lout + ltemp) \
                 or [x.s for x in lin] != list(inputs) \
